@@ -16,17 +16,18 @@ ID = "C15"
 CASES = {"quick": 4000, "thorough": 60000}
 FLOOR = {"quick": 3600, "thorough": 55000}
 FLOOR_COUNTERS = {
-    "quick": {"all_points_inside_one_cell": 1200, "large_unit_precisions": 250, "image_shift_pairs": 3500, "half_cell_pairs": 600, "mahalanobis_calls": 3500, "triangle_triples": 3500},
-    "thorough": {"all_points_inside_one_cell": 18000, "large_unit_precisions": 4000, "image_shift_pairs": 55000, "half_cell_pairs": 9000, "mahalanobis_calls": 55000, "triangle_triples": 55000},
+    "quick": {"all_points_inside_one_cell": 1200, "large_unit_precisions": 250, "image_shift_pairs": 3500, "half_cell_pairs": 600, "mahalanobis_calls": 3500, "triangle_triples": 3500, "tight_clouds_far_from_origin": 500, "cell_objects_edited_in_place": 3500},
+    "thorough": {"all_points_inside_one_cell": 18000, "large_unit_precisions": 4000, "image_shift_pairs": 55000, "half_cell_pairs": 9000, "mahalanobis_calls": 55000, "triangle_triples": 55000, "tight_clouds_far_from_origin": 8000, "cell_objects_edited_in_place": 55000},
 }
 RULE = (
     "case = point sets X, Y in 1-6 dimensions with coordinates up to +-50 cells, positive rectangular cell (anisotropy up "
     "to 1e3), integer image shifts in -5..5 per point and coordinate, optional pairs placed exactly half a cell apart, SPD "
-    "precision stacks (1-3 matrices, cond <= 1e6). non-trivial = anisotropic cell or half-cell pairs present; distinct by data hash."
+    "precision stacks (1-3 matrices, cond <= 1e6); a fifth of the cases are tight clouds (spread 1e-3..1) far from the origin "
+    "(1e2..1e7); every case re-uses one cell object (array or list) that is edited in place between calls. non-trivial = anisotropic cell or half-cell pairs present; distinct by data hash."
 )
 ASSUMPTIONS = [
     "tolerance 1e-9 x (cell diagonal + largest coordinate): shifts by many cells lose absolute precision",
-    "whitening identity judged in free space (no cell), as the property states",
+    "whitening identity judged in free space (no cell), as the property states, against the norm of L-whitened pair differences; relative tolerance 1e-9 + 40 eps d cond(P)",
 ]
 
 
@@ -38,11 +39,15 @@ def gen(rng, tier, index):
         cell = cell * 10.0 ** rng.uniform(-1.5, 1.5, size=d)
     X = rng.uniform(-50, 50, size=(nx, d)) * cell * (rng.random() < 0.5) + rng.uniform(-1, 1, size=(nx, d)) * cell
     Y = rng.uniform(-50, 50, size=(ny, d)) * cell * (rng.random() < 0.5) + rng.uniform(-1, 1, size=(ny, d)) * cell
-    where = gens.pick(rng, ("anywhere", "anywhere", "centred_cell", "positive_cell"))
+    where = gens.pick(rng, ("anywhere", "anywhere", "centred_cell", "positive_cell", "tight_far"))
     if where == "centred_cell":  # every coordinate inside [-L/2, L/2]: pairs can still be > L/2 apart
         X, Y = rng.uniform(-0.5, 0.5, size=(nx, d)) * cell, rng.uniform(-0.5, 0.5, size=(ny, d)) * cell
     elif where == "positive_cell":
         X, Y = rng.uniform(0, 1, size=(nx, d)) * cell, rng.uniform(0, 1, size=(ny, d)) * cell
+    elif where == "tight_far":  # a tight cloud far from the origin: separations << coordinates
+        centre = rng.normal(size=d) * 10.0 ** rng.uniform(2, 7)
+        spread = 10.0 ** rng.uniform(-3, 0)
+        X, Y = centre + spread * rng.normal(size=(nx, d)), centre + spread * rng.normal(size=(ny, d))
     half = bool(rng.random() < 0.2)
     if half:  # y_0 exactly half a cell away from x_0 along some coordinates
         X = np.round(X / cell * 4) / 4 * cell
@@ -65,6 +70,8 @@ def gen(rng, tier, index):
         "unit": unit,
         "P": P,
         "half": half,
+        "cell_edit": float(gens.pick(rng, (1.37, 0.61, 2.0, 1.001))),
+        "cell_as_list": bool(rng.random() < 0.5),
     }
 
 
@@ -100,7 +107,8 @@ def run(case, j):
         j.note("half_cell_pairs")
     # bounds
     Dfree = euclidean_distances(X, Y)
-    j.ok("never larger than the free-space distance", bool(np.all(D <= Dfree + tol)), float((D - Dfree).max()))
+    Dsep = np.linalg.norm(X[:, None, :] - Y[None, :, :], axis=-1)  # from the pair differences: accurate also for tight, far clouds
+    j.ok("never larger than the free-space distance", bool(np.all(D <= Dsep + tol)), float((D - Dsep).max()))
     j.ok("never larger than half the cell diagonal", bool(np.all(D <= diag / 2 + tol)), (float(D.max()), diag / 2))
     # triangle inequality through third points
     Dxz = np.asarray(ped(X, Zp, cell_length=cell))
@@ -123,10 +131,18 @@ def run(case, j):
     j.close("identity precision == periodic Euclidean distance", M1[0], D, tol)
     L = np.linalg.cholesky(P[0])
     Mw = np.asarray(mah(X, Y, P[0]))[0]
-    want = euclidean_distances(X @ L, Y @ L)
-    sc = max(float(want.max()), 1e-300)
-    condP = np.linalg.cond(P[0])
-    j.close("precision L L^T == Euclidean distance between L-whitened points (free space)", Mw, want, 1e-8 * sc * max(1.0, np.sqrt(condP)) * (1 + big / (diag + 1e-300)) * 1e-2 + 1e-7 * sc)
+    # whitened separations computed from the pair differences (exact subtraction of nearby numbers), not from the
+    # expanded quadratic form: the reference stays accurate for tight clouds far from the origin
+    want = np.linalg.norm((X[:, None, :] - Y[None, :, :]) @ L, axis=-1)
+    condP = float(np.linalg.cond(P[0]))
+    relw = 1e-9 + 40 * np.finfo(float).eps * d * condP  # delta^T P delta carries a relative error of about eps * d * cond(P)
+    j.close("precision L L^T == Euclidean distance between L-whitened points (free space)", Mw, want, relw * want + 1e-300)
+    if case.get("where") == "tight_far":
+        j.note("tight_clouds_far_from_origin")
+        Mi0 = np.asarray(mah(X, Y, I))[0]
+        sep = np.linalg.norm(X[:, None, :] - Y[None, :, :], axis=-1)
+        j.close("identity precision, free space == Euclidean separation of the pair differences", Mi0, sep, 1e-9 * sep + 1e-300)
+        j.close("squared=True is the square (free space, tight cloud)", np.asarray(mah(X, Y, P[0], squared=True))[0], want**2, 2 * relw * want**2 + 1e-300)
     Ms = np.asarray(mah(X, Y, P, cell_length=cell))
     j.ok("stack shape", Ms.shape == (len(P), len(X), len(Y)), Ms.shape)
     for i in range(len(P)):
@@ -136,6 +152,26 @@ def run(case, j):
     Msh = np.asarray(mah(Xs, Ys, P, cell_length=cell))
     j.close("Mahalanobis unchanged by integer image shifts", Msh, Ms, 1e-8 * max(float(Ms.max()), 1e-300) * (1 + big / (cell.min() + 1e-300)) * 1e-3 + 1e-7 * max(float(Ms.max()), 1e-300) + (np.inf if case["half"] else 0.0))
     j.note("mahalanobis_calls")
+    # the same cell object, edited in place between calls (a box that is being rescaled): every call uses the cell
+    # values it is given at that moment
+    cobj = [float(c) for c in cell] if case.get("cell_as_list") else np.array(cell, copy=True)
+
+    def mi(c):
+        c = np.asarray(c, dtype=float)
+        w = np.abs(diff - np.round(diff / c) * c)
+        return np.sqrt((np.minimum(w, c - w) ** 2).sum(-1))
+
+    for step in range(3):
+        cur = np.asarray(cobj, dtype=float).copy()
+        tolc = 1e-9 * (float(np.linalg.norm(cur)) + big)
+        fn = (lambda: np.asarray(ped(X, Y, cell_length=cobj))) if (step + d) % 2 else (lambda: np.asarray(mah(X, Y, I, cell_length=cobj))[0])
+        j.close("cell object edited in place between calls: the distances follow the current cell", fn(), mi(cur), tolc, {"step": step, "cell": cur})
+        if step % 2 == 0:
+            for i_ in range(len(cobj)):
+                cobj[i_] = cobj[i_] * case.get("cell_edit", 1.37)
+        else:
+            cobj[0] = cobj[0] * 0.5
+    j.note("cell_objects_edited_in_place")
     # mismatched cell
     bad_cells = [np.ones(d + 1)] + ([np.ones(1), np.ones(d - 1)] if d > 1 else [])
     for fn, args in ((ped, (X, Y)), (mah, (X, Y, I))):
